@@ -33,7 +33,8 @@ def gen_input(r, tier, prop):
         if path == "se":
             inp["se_opts"] = {"wrap": r.choice([3, 7, 10, 400]), "orphans": r.choice([0, 0, 1, 3, 5]),
                               "drop_faces": r.choice([0, 0, 0, 1, 2]), "seed": r.randrange(1000),
-                              "keep_order": r.random() < 0.4, "tabs": r.random() < 0.2, "sci": r.random() < 0.2}
+                              "keep_order": r.random() < 0.4, "tabs": r.random() < 0.2, "sci": r.random() < 0.2,
+                              "trail": r.choice([None, None, "all", "some"])}
         return inp
     if kind == "tess":
         n = r.randint(8, 36)
